@@ -399,6 +399,7 @@ func implementers(pk string, it *ast.InterfaceType) []string {
 // ---------------------------------------------------------------- analysis state
 
 type lock struct {
+	id       int    // instance of the hold (one per Lock()/RLock() statement reached)
 	base     string // printed base expression
 	key      string // pkg|Type.field  or local:<func>:<expr>
 	excl     bool
@@ -406,6 +407,7 @@ type lock struct {
 }
 
 type access struct {
+	holdID int // id of the hold of the designated mutex on the same base, 0 if none
 	fn    string
 	guard int
 	write bool
@@ -422,6 +424,22 @@ type callRec struct {
 	callees []string // candidate function keys
 	held    []lock
 }
+
+// atomic groups: fields of one object that are written together in one critical section and
+// must be read together (one critical section) by the functions that build a snapshot of them.
+type atomicGroup struct {
+	pkg, typ string
+	fields   []string
+	// functions of the package whose result type mentions this name are snapshot builders
+	resultMentions string
+}
+
+var atomicGroups = []atomicGroup{
+	{pkg: "pintracker/optracker", typ: "Operation", fields: []string{"phase", "error", "ts"}, resultMentions: "PinInfo"},
+}
+
+var lockSeq int
+var resultTypes = map[string]string{}
 
 type spawn struct {
 	fn, callee string
@@ -854,7 +872,15 @@ func guardedAnywhere(field string) bool {
 func (c *fctx) record(gi int, base string, write bool, what string) {
 	touches[c.fn] = true
 	c.pos++
-	accesses = append(accesses, access{fn: c.fn, guard: gi, write: write, base: base, held: copyLocks(c.held), pos: c.pos, what: what})
+	hid := 0
+	if g := guards[gi]; g.kind == kLocked {
+		for _, h := range c.held {
+			if h.base == base && h.key == g.pkg+"|"+g.typ+"."+g.mutex {
+				hid = h.id
+			}
+		}
+	}
+	accesses = append(accesses, access{holdID: hid, fn: c.fn, guard: gi, write: write, base: base, held: copyLocks(c.held), pos: c.pos, what: what})
 }
 
 // lhs handles an assignment target.
@@ -1080,7 +1106,8 @@ func (c *fctx) lockOp(call *ast.CallExpr, deferred bool) bool {
 			directAq[c.fn] = map[string]bool{}
 		}
 		directAq[c.fn][key] = true
-		c.held = append(c.held, lock{base: base, key: key, excl: sel.Sel.Name == "Lock"})
+		lockSeq++
+		c.held = append(c.held, lock{id: lockSeq, base: base, key: key, excl: sel.Sel.Name == "Lock"})
 	default:
 		wantExcl := sel.Sel.Name == "Unlock"
 		idx := -1
@@ -1618,6 +1645,13 @@ func analyseFunc(p *pkgInfo, fd *ast.FuncDecl) {
 		name = recvTypeName(fd.Recv.List[0].Type) + "." + name
 	}
 	c := &fctx{p: p, fn: p.dir + "|" + name, env: map[string]*T{}, aliases: map[string]alias{}}
+	if fd.Type.Results != nil {
+		var rs []string
+		for _, f := range fd.Type.Results.List {
+			rs = append(rs, exprStr(f.Type))
+		}
+		resultTypes[c.fn] = strings.Join(rs, ",")
+	}
 	c.bindFields(fd.Recv)
 	c.bindFields(fd.Type.Params)
 	c.bindFields(fd.Type.Results)
@@ -1870,6 +1904,95 @@ func main() {
 	}
 	w("]\n\n")
 
+	// ---- snapshot builders: in how many critical sections do they read an atomic group?
+	type section map[int]bool // guard indices read in one critical section
+	w("/-- functions that build a snapshot of an atomic group (fields written together under one hold): number of critical\n")
+	w("sections in which they read fields of the group (directly or through methods of the owning type) and number of distinct fields read -/\n")
+	w("def snapshots : List Snapshot := [\n")
+	var snapLines []string
+	for _, ag := range atomicGroups {
+		inGroup := map[int]bool{}
+		for _, f := range ag.fields {
+			if gi := guardIndex(ag.pkg, ag.typ, f); gi >= 0 {
+				inGroup[gi] = true
+			}
+		}
+		ownerPrefix := ag.pkg + "|" + ag.typ + "."
+		memo := map[string][]section{}
+		var sectionsOf func(fn string, depth int) []section
+		sectionsOf = func(fn string, depth int) []section {
+			if r, ok := memo[fn]; ok {
+				return r
+			}
+			if depth > 8 {
+				return nil
+			}
+			byHold := map[int]section{}
+			var res []section
+			for _, a := range accesses {
+				if a.fn != fn || !inGroup[a.guard] || a.write {
+					continue
+				}
+				if a.holdID == 0 {
+					res = append(res, section{a.guard: true}) // an unlocked read is a section of its own
+					continue
+				}
+				if byHold[a.holdID] == nil {
+					byHold[a.holdID] = section{}
+				}
+				byHold[a.holdID][a.guard] = true
+			}
+			var ids []int
+			for id := range byHold {
+				ids = append(ids, id)
+			}
+			sort.Ints(ids)
+			for _, id := range ids {
+				res = append(res, byHold[id])
+			}
+			for _, cr := range calls {
+				if cr.fn != fn {
+					continue
+				}
+				for _, cal := range cr.callees {
+					if strings.HasPrefix(cal, ownerPrefix) {
+						res = append(res, sectionsOf(cal, depth+1)...)
+					}
+				}
+			}
+			memo[fn] = res
+			return res
+		}
+		var fns []string
+		for fn, rt := range resultTypes {
+			if strings.HasPrefix(fn, ag.pkg+"|") && strings.Contains(rt, ag.resultMentions) {
+				fns = append(fns, fn)
+			}
+		}
+		sort.Strings(fns)
+		for _, fn := range fns {
+			secs := sectionsOf(fn, 0)
+			fields := map[int]bool{}
+			for _, sc := range secs {
+				for g := range sc {
+					fields[g] = true
+				}
+			}
+			if len(fields) == 0 {
+				continue
+			}
+			snapLines = append(snapLines, fmt.Sprintf("  { fn := %d, sections := %d, fields := %d } -- %s reads %d field(s) of %s%s in %d critical section(s)",
+				fid(fn), len(secs), len(fields), fn, len(fields), ownerPrefix, "{"+strings.Join(ag.fields, ",")+"}", len(secs)))
+		}
+	}
+	for i, l := range snapLines {
+		if i < len(snapLines)-1 {
+			l = strings.Replace(l, " } -- ", " }, -- ", 1)
+		}
+		w("%s\n", l)
+	}
+	w("]\n\n")
+
 	// problems: only for functions that touch a guarded field or a mutex
 	var pfns []string
 	for fn := range problems {
@@ -1917,8 +2040,8 @@ func main() {
 	fmt.Print(b.String())
 
 	// human-readable summary on stderr
-	fmt.Fprintf(os.Stderr, "extract_c18: %d accesses, %d edges, %d spawns, %d problem lines, %d mutexes\n",
-		len(accesses), len(eks), len(spawns), len(plines), len(mutexNames))
+	fmt.Fprintf(os.Stderr, "extract_c18: %d accesses, %d edges, %d spawns, %d snapshot builders, %d problem lines, %d mutexes\n",
+		len(accesses), len(eks), len(spawns), len(snapLines), len(plines), len(mutexNames))
 	for _, p := range plines {
 		fmt.Fprintln(os.Stderr, "  problem:", p)
 	}
